@@ -457,7 +457,7 @@ func GenC09(rng *rand.Rand, thorough bool, emit func(*Sx)) {
 	n := 0
 	for mode := 0; mode < 3; mode++ { // 0 plaintext+insecure, 1 implicit TLS, 2 plaintext without insecure
 		for nsteps := 0; nsteps <= 3; nsteps++ {
-			for _, fin := range []string{"done", "err", "smtperr", "exhaust"} {
+			for _, fin := range []string{"done", "err", "smtperr", "exhaust", "donedata"} {
 				for _, ini := range initial {
 					for li, lat := range later {
 						n++
@@ -480,6 +480,9 @@ func GenC09(rng *rand.Rand, thorough bool, emit func(*Sx)) {
 						switch fin {
 						case "done":
 							steps = append(steps, SaslStep{Done: true})
+						case "donedata":
+							// success together with additional data (SCRAM's server signature): the exchange is over
+							steps = append(steps, SaslStep{Done: true, Challenge: []byte("v=server signature")})
 						case "err":
 							steps = append(steps, SaslStep{Err: BPlain("bad credentials")})
 						case "smtperr":
